@@ -279,13 +279,25 @@ func runRio(res *Result, drv *Driver, seed uint64, n int, tier string, only int)
 	defer os.RemoveAll(dir)
 	res.Rule = "writer programs (Write/WriteSync/Seek incl. rejected seeks) x compression x write/read buffer sizes x direct I/O; " +
 		"non-trivial = at least one record written; distinct = distinct (program, options) strings"
-	for i := 0; i < n; i++ {
+	res.Rule += "; " + rioThresholdRule
+	// cases n .. n+extra-1: record sizes around the constants of the implementation that are no configured buffer sizes
+	// and direct-I/O writers with buffers of several blocks (rioThresholdOne; generated from a second random stream, the
+	// cases 0..n-1 are what they were)
+	extra := rioThresholdCount(n)
+	for i := 0; i < n+extra; i++ {
 		if only >= 0 && i != only {
+			continue
+		}
+		path := filepath.Join(dir, fmt.Sprintf("c%d.rio", i))
+		if i >= n {
+			if err := rioThresholdOne(res, drv, NewRng(seed^0x7468726573686f6c, uint64(i)), seed, i, i-n, path, tier); err != nil {
+				return err
+			}
+			_ = os.Remove(path)
 			continue
 		}
 		r := NewRng(seed, uint64(i))
 		c := genRioCase(r, tier)
-		path := filepath.Join(dir, fmt.Sprintf("c%d.rio", i))
 		if err := rioOne(res, drv, r, c, i, path, tier); err != nil {
 			return err
 		}
@@ -729,4 +741,415 @@ func isSurvivorOffset(surv []survivor, off uint64) bool {
 		}
 	}
 	return false
+}
+
+// ---------------------------------------------------------------------------------------------
+// threshold cases (C04, and C07 for the block-aligned writer): record sizes around the constants of the
+// implementation that are NOT configured buffer sizes, and direct-I/O writers whose buffer holds several blocks.
+//
+// Constants (read off the source; a change of one of them only makes these cases aim next to the old value):
+//   * the record buffer pools are pool.NewPool(1024, 20) (capnp exp/bufferpool): size classes 1<<10 ... 1<<19, a
+//     request above 1<<19 is allocated on demand and dropped on Put, the documentation says "max size = ~1MiB";
+//   * recordio.DefaultBufferSize = 4 MiB (writer and reader buffer when none is configured);
+//   * the compressors' windows / block sizes: 32 KiB (flate), 64 KiB (snappy block);
+//   * the mmap reader's seek window (4 KiB) and the direct-I/O block (4 KiB) are in the plain cases already.
+// The files are too large for the wire protocol of the model, so these cases are judged by the property oracle
+// alone: every access path (ReadNext, SkipNext + ReadNext, ReadNextAt, SeekNext) returns the written bytes.
+
+const rioThresholdRule = "n/25 more cases (at most 64; oracle only for the large ones): records of 2^k-1, 2^k, 2^k+1 bytes for the buffer-pool size classes 2^10 ... 2^19, " +
+	"2^20 (documented pool maximum), 2^21, 4 MiB (default buffer), 32 KiB / 64 KiB (compressor windows), payloads incompressible or compressible but never constant, " +
+	"every compression type, read through ReadNext, SkipNext/ReadNext, ReadNextAt and SeekNext; direct-I/O writers with buffers of 2 ... 4 blocks whose file receives more than " +
+	"one buffer and is closed a few bytes after a refill (model comparison as for the plain direct-I/O cases)"
+
+func rioThresholdCount(n int) int {
+	e := n / 25
+	if e > 64 {
+		e = 64
+	}
+	return e
+}
+
+type rioBigRec struct {
+	size int
+	kind string // "rand" incompressible, "pat" compressible and position dependent, "nil", "small"
+	data []byte
+}
+
+// rioFill: n bytes, never constant, first and last byte non-zero
+func rioFill(r *Rng, n int, kind string) []byte {
+	b := make([]byte, n)
+	if n == 0 {
+		return b
+	}
+	switch kind {
+	case "pat":
+		// a random 251-byte block repeated with the repetition number added: compresses well, yet every 251-byte
+		// window differs from its neighbours (a misplaced or truncated window shows)
+		blk := r.Bytes(251)
+		for i := range b {
+			b[i] = blk[i%251] + byte(i/251) + byte(i/(251*256))
+		}
+	default:
+		// xorshift from the case's random stream: eight bytes per step
+		x := r.Next() | 1
+		i := 0
+		for ; i+8 <= n; i += 8 {
+			x ^= x << 13
+			x ^= x >> 7
+			x ^= x << 17
+			b[i], b[i+1], b[i+2], b[i+3] = byte(x), byte(x>>8), byte(x>>16), byte(x>>24)
+			b[i+4], b[i+5], b[i+6], b[i+7] = byte(x>>32), byte(x>>40), byte(x>>48), byte(x>>56)
+		}
+		for ; i < n; i++ {
+			b[i] = byte(r.Next())
+		}
+	}
+	if b[0] == 0 {
+		b[0] = 0xa5
+	}
+	if b[n-1] == 0 {
+		b[n-1] = 0x5a
+	}
+	return b
+}
+
+// rioNonZero: n random bytes without a zero among them (what a stale buffer must not leak as "padding")
+func rioNonZero(r *Rng, n int) []byte {
+	b := r.Bytes(n)
+	for i := range b {
+		if b[i] == 0 {
+			b[i] = 0x5a
+		}
+	}
+	return b
+}
+
+func rioDiff(want, got []byte, err error) string {
+	if err != nil {
+		return "err:" + errKindP(err) + " (" + clipN(err.Error(), 160) + ")"
+	}
+	if want == nil || got == nil {
+		if want == nil && got == nil {
+			return ""
+		}
+		return fmt.Sprintf("want nil=%v got nil=%v (got %d bytes)", want == nil, got == nil, len(got))
+	}
+	if len(want) != len(got) {
+		return fmt.Sprintf("want %d bytes, got %d bytes", len(want), len(got))
+	}
+	for i := range want {
+		if want[i] != got[i] {
+			zero := true
+			for _, x := range got {
+				if x != 0 {
+					zero = false
+					break
+				}
+			}
+			return fmt.Sprintf("%d bytes, first difference at byte %d: want %02x got %02x; got is all zero: %v", len(want), i, want[i], got[i], zero)
+		}
+	}
+	return ""
+}
+
+func rioSizeClass(n int) string {
+	switch {
+	case n > 1<<20:
+		return ">1MiB"
+	case n > 1<<19:
+		return "512KiB<..<=1MiB"
+	case n >= 1<<16:
+		return "64KiB..512KiB"
+	case n >= 1<<10:
+		return "1KiB..64KiB"
+	}
+	return "<1KiB"
+}
+
+// schedule of one group of 14 cases: every compression type for the classes A, C, D and two of the four for B (which two
+// changes with the seed and the group): the 4 MiB cases are the expensive ones
+func rioThresholdOne(res *Result, drv *Driver, r *Rng, seed uint64, idx, j int, path string, tier string) error {
+	slot := j % 14
+	group := j / 14
+	switch {
+	case slot < 4: // A: the pool maximum
+		comp := slot
+		d1 := r.Intn(2) - 1 // -1, 0
+		d2 := r.Intn(2) - 1
+		sizes := []int{1<<20 + 1, 1<<20 + d1, 1<<19 + 1, 1<<19 + d2}
+		if group%2 == 1 {
+			sizes = []int{1<<21 + r.Intn(3) - 1, 1<<20 + 1 + r.Intn(5000), 1<<19 + 1 + r.Intn(5000)}
+		}
+		return rioBigOne(res, r, idx, path, "pool-maximum", comp, sizes)
+	case slot < 6: // B: the default buffer size
+		comp := (slot-4)*2 + int((seed+uint64(group))%2)
+		sizes := []int{recordio.DefaultBufferSize + r.Intn(3) - 1}
+		if r.Chance(50) {
+			sizes = append(sizes, 1<<20+1+r.Intn(1<<20))
+		}
+		return rioBigOne(res, r, idx, path, "default-buffer-4MiB", comp, sizes)
+	case slot < 10: // C: the pool's size classes and the compressor windows
+		comp := slot - 6
+		var sizes []int
+		for k := 10; k <= 18; k++ {
+			if r.Chance(45) {
+				sizes = append(sizes, 1<<k+r.Intn(3)-1)
+			}
+		}
+		sizes = append(sizes, 1<<15+r.Intn(3)-1, 1<<16+r.Intn(3)-1, 1<<(10+r.Intn(9))+1)
+		return rioBigOne(res, r, idx, path, "pool-classes+compressor-windows", comp, sizes)
+	default: // D: direct-I/O writer, buffer of several blocks, more than one buffer per file
+		comp := slot - 10
+		if ok, err := recordio.IsDirectIOAvailable(); err != nil || !ok {
+			res.Cases++
+			res.Stat("threshold:direct-multi-block:skipped-direct-io-not-available-on-this-file-system")
+			return nil
+		}
+		c := genRioDirectMulti(res, r, comp)
+		return rioOne(res, drv, r, c, idx, path, tier)
+	}
+}
+
+// alignedAim: payloads (each below `maxRec`, non-zero bytes) whose encoded records, after `start` bytes already in the
+// file, end `rem` bytes behind the k-th multiple of the buffer size: the writer has written its buffer k times and holds
+// rem bytes when the file is closed. Shared with the wal stream.
+func alignedAim(r *Rng, comp int, start, buf, k, rem, maxRec int) (recs [][]byte, end int) {
+	target := k * buf
+	size := start
+	lim := maxRec
+	if lim > buf/6 {
+		lim = buf / 6
+	}
+	if lim < 64 {
+		lim = 64
+	}
+	for size < target-lim-64 || target+rem-size-12 > maxRec {
+		p := rioNonZero(r, 40+r.Intn(lim-40))
+		recs = append(recs, p)
+		size += refRecordLen(comp, p)
+	}
+	// the last record: aim at target+rem, correct the length by the observed miss (compressors add a few bytes)
+	l := target + rem - size - 12
+	if l < 1 {
+		l = 1
+	}
+	p := rioNonZero(r, l+64)
+	for try := 0; try < 8; try++ {
+		miss := size + refRecordLen(comp, p[:l]) - (target + rem)
+		if miss == 0 {
+			break
+		}
+		l -= miss
+		if l < 1 {
+			l = 1
+			break
+		}
+		if l > len(p) {
+			l = len(p)
+			break
+		}
+	}
+	recs = append(recs, p[:l])
+	return recs, size + refRecordLen(comp, p[:l])
+}
+
+func genRioDirectMulti(res *Result, r *Rng, comp int) *rioCase {
+	// (the model reads the whole image several times: buffers of 2 ... 4 blocks here, up to 16 blocks in the wal stream)
+	buf := []int{8192, 8192, 12288, 16384}[r.Intn(4)]
+	k := 1 + r.Intn(2)
+	if buf >= 16384 {
+		k = 1
+	}
+	rem := 1 + r.Intn(3000)
+	if r.Chance(40) {
+		rem = 1 + r.Intn(24) // a handful of bytes behind the refill
+	}
+	if r.Chance(12) {
+		rem = buf - 4096 + 1 + r.Intn(4000) // control: the rest ends in the last block of the buffer
+	}
+	c := &rioCase{comp: comp, wbuf: buf, rbuf: r.Pick(bufSizes), direct: true}
+	recs, end := alignedAim(r, comp, 8, buf, k, rem, buf/2-1)
+	for _, p := range recs {
+		c.ops = append(c.ops, wop{kind: "w", rec: p})
+		c.payloads = append(c.payloads, p)
+	}
+	res.Stat("threshold:direct-multi-block")
+	res.Stat(fmt.Sprintf("threshold:direct-multi-block:buffer=%d-blocks", buf/4096))
+	res.Stat(fmt.Sprintf("threshold:direct-multi-block:buffers-written-before-close=%d", end/buf))
+	if end > buf {
+		res.Stat(fmt.Sprintf("threshold:direct-multi-block:last-flush-ends-in-block-%d-of-%d", (end%buf+4095)/4096, buf/4096))
+	}
+	return c
+}
+
+func rioBigOne(res *Result, r *Rng, idx int, path string, class string, comp int, sizes []int) error {
+	res.Cases++
+	res.Stat(fmt.Sprintf("comp=%d", comp))
+	res.Stat("threshold:" + class)
+	res.Stat(fmt.Sprintf("threshold:%s:comp=%d", class, comp))
+	// the records: the aimed sizes in random order, now and then a nil / short record between them
+	for i := len(sizes) - 1; i > 0; i-- {
+		k := r.Intn(i + 1)
+		sizes[i], sizes[k] = sizes[k], sizes[i]
+	}
+	var recs []rioBigRec
+	maxSize := 0
+	for _, n := range sizes {
+		if r.Chance(30) {
+			if r.Chance(40) {
+				recs = append(recs, rioBigRec{0, "nil", nil})
+			} else {
+				n := r.Intn(200)
+				recs = append(recs, rioBigRec{n, "small", rioFill(r, n, "rand")})
+			}
+		}
+		kind := "rand"
+		if r.Chance(40) {
+			kind = "pat"
+		}
+		recs = append(recs, rioBigRec{n, kind, rioFill(r, n, kind)})
+		res.Stat("threshold:rec:" + rioSizeClass(n))
+		if n > maxSize {
+			maxSize = n
+		}
+	}
+	bufChoices := []int{1, 100, 4096, 65536, 1 << 20, recordio.DefaultBufferSize, maxSize - 1, maxSize, maxSize + 1, maxSize + 37}
+	wbuf, rbuf := r.Pick(bufChoices), r.Pick(bufChoices)
+	parts := make([]string, len(recs))
+	for i, x := range recs {
+		parts[i] = fmt.Sprintf("%s:%d", x.kind, x.size)
+	}
+	cs := fmt.Sprintf("threshold class=%s comp=%d wbuf=%d rbuf=%d records(kind:bytes; contents from the case's random stream)=%s", class, comp, wbuf, rbuf, strings.Join(parts, ","))
+	res.Sample(cs)
+	res.NoteNontrivial(cs)
+	c := &rioCase{comp: comp, wbuf: wbuf, rbuf: rbuf}
+
+	w, err := recordio.NewFileWriter(recordio.Path(path), recordio.CompressionType(comp), recordio.BufferSizeBytes(wbuf))
+	if err != nil {
+		return fmt.Errorf("NewFileWriter: %w", err)
+	}
+	if err := w.Open(); err != nil {
+		return fmt.Errorf("writer open: %w", err)
+	}
+	offs := make([]uint64, len(recs))
+	for i, x := range recs {
+		var off uint64
+		err := safely(func() error { var e error; off, e = w.Write(x.data); return e })
+		if err != nil {
+			res.Violate(idx, "C04", "threshold:write-failed", fmt.Sprintf("record %d (%s:%d): %v", i, x.kind, x.size, err), cs)
+			_ = w.Close()
+			return nil
+		}
+		offs[i] = off
+	}
+	if err := w.Close(); err != nil {
+		res.Violate(idx, "C04", "threshold:close-failed", err.Error(), cs)
+		return nil
+	}
+	st, err := os.Stat(path)
+	if err != nil {
+		return err
+	}
+	fileLen := uint64(st.Size())
+	what := func(i int) string { return fmt.Sprintf("record %d (%s, %d bytes, offset %d)", i, recs[i].kind, recs[i].size, offs[i]) }
+	sig := func(path string, i int) string {
+		return fmt.Sprintf("threshold:%s:record-%s", path, rioSizeClass(recs[i].size))
+	}
+
+	// 1. sequential read; 2. skip / read mixed (two complementary programs: every record is read once and skipped once)
+	for pass := 0; pass < 3; pass++ {
+		err := func() error {
+			rd, err := recordio.NewFileReader(recordio.ReaderPath(path), recordio.ReaderBufferSizeBytes(c.rbuf))
+			if err != nil {
+				return err
+			}
+			defer rd.Close()
+			if err := rd.Open(); err != nil {
+				return fmt.Errorf("reader open: %w", err)
+			}
+			name := []string{"seq-read", "skip-read", "skip-read"}[pass]
+			for i := range recs {
+				skip := pass > 0 && (i+pass)%2 == 0
+				res.Evaluations++
+				if skip {
+					if err := safely(func() error { return rd.SkipNext() }); err != nil {
+						res.Violate(idx, "C04", sig(name, i), fmt.Sprintf("%s: SkipNext over %s: %v", name, what(i), err), cs)
+						return nil
+					}
+					continue
+				}
+				var got []byte
+				err := safely(func() error { var e error; got, e = rd.ReadNext(); return e })
+				if d := rioDiff(recs[i].data, got, err); d != "" {
+					res.Violate(idx, "C04", sig(name, i), fmt.Sprintf("%s: ReadNext of %s: %s", name, what(i), d), cs)
+					if err != nil {
+						return nil
+					}
+				}
+			}
+			var got []byte
+			err = safely(func() error { var e error; got, e = rd.ReadNext(); return e })
+			res.Evaluations++
+			if !errors.Is(err, io.EOF) {
+				res.Violate(idx, "C04", "threshold:"+name+":end", fmt.Sprintf("%s: ReadNext behind the last record: want EOF, got %d bytes, err = %v", name, len(got), err), cs)
+			}
+			return nil
+		}()
+		if err != nil {
+			return err
+		}
+	}
+	// 3. random access, 4. SeekNext
+	mm, err := recordio.NewMemoryMappedReaderWithPath(path)
+	if err != nil {
+		return err
+	}
+	if err := mm.Open(); err != nil {
+		_ = mm.Close()
+		return fmt.Errorf("mmap open: %w", err)
+	}
+	defer mm.Close()
+	for i := range recs {
+		var got []byte
+		err := safely(func() error { var e error; got, e = mm.ReadNextAt(offs[i]); return e })
+		res.Evaluations++
+		if d := rioDiff(recs[i].data, got, err); d != "" {
+			res.Violate(idx, "C04", sig("readat", i), fmt.Sprintf("ReadNextAt(%d) of %s: %s", offs[i], what(i), d), cs)
+		}
+	}
+	seek := func(o uint64, wantIdx int, note string) {
+		var off uint64
+		var got []byte
+		err := safely(func() error { var e error; off, got, e = mm.SeekNext(o); return e })
+		res.Evaluations++
+		if wantIdx >= len(recs) {
+			if err == nil || (o <= fileLen && !errors.Is(err, io.EOF)) {
+				res.Violate(idx, "C04", "threshold:seeknext:end", fmt.Sprintf("SeekNext(%d) (%s; no record starts there or later, file of %d bytes): want EOF, got offset %d, %d bytes, err = %v", o, note, fileLen, off, len(got), err), cs)
+			}
+			return
+		}
+		d := rioDiff(recs[wantIdx].data, got, err)
+		if d == "" && off != offs[wantIdx] {
+			d = fmt.Sprintf("offset %d", off)
+		}
+		if d != "" {
+			res.Violate(idx, "C04", sig("seeknext", wantIdx), fmt.Sprintf("SeekNext(%d) (%s): want %s, got: %s", o, note, what(wantIdx), d), cs)
+		}
+	}
+	for i := range recs {
+		seek(offs[i], i, "a record's offset")
+		seek(offs[i]-1, i, "one byte before a record")
+		seek(offs[i]+1, i+1, "one byte into a record")
+		if recs[i].size > 8 {
+			// somewhere inside the payload: the scan crosses the rest of the record
+			end := fileLen
+			if i+1 < len(recs) {
+				end = offs[i+1]
+			}
+			seek(end-1-uint64(r.Intn(recs[i].size-4)), i+1, "inside a record's payload")
+		}
+	}
+	seek(0, 0, "start of the file")
+	seek(fileLen, len(recs), "end of the file")
+	return nil
 }
